@@ -1,7 +1,7 @@
 #!/bin/bash
 # usage: tools/sweep_seeded.sh [<repo-dir>]     (default /repo; use a scratch copy for background sweeps)
-# Runs, for every seeded change, the quick check of the property it breaks against a tree with the
-# change applied, and writes seeded/RESULTS.md (detected / missed, first violation line).
+# Runs, for every seeded change, the quick check of the property it breaks (and any further check
+# named in its meta.json "sweep_checks") against a tree with the change applied, and writes seeded/RESULTS.md (detected / missed, first violation line).
 REPO=${1:-/repo}
 VERIF=$(cd "$(dirname "$0")/.." && pwd)
 OUT=${SWEEP_OUT:-/tmp/sweep_out}
@@ -12,21 +12,24 @@ res="$VERIF/seeded/RESULTS.md"
   echo
   echo "Produced by tools/sweep_seeded.sh on $(date -u +%Y-%m-%dT%H:%MZ) against $(git -C "$REPO" log --format=%h -1) (quick tier, VERIF_SEED=${VERIF_SEED:-1})."
   echo
-  echo "| seeded change | property | check exit | seconds | first violation |"
-  echo "|---|---|---|---|---|"
+  echo "| seeded change | property | check | exit | seconds | first violation |"
+  echo "|---|---|---|---|---|---|"
 } > "$res.tmp"
 git -C "$REPO" status --short | grep -q . && { echo "refusing: $REPO is dirty"; exit 2; }
 for d in "$VERIF"/seeded/*/; do
   id=$(basename "$d")
   prop=$(python3 -c "import json;print(json.load(open('$d/meta.json'))['breaks_property'])")
-  git -C "$REPO" apply "$d/patch.diff" || { echo "| $id | $prop | patch does not apply | | |" >> "$res.tmp"; continue; }
-  t0=$(date +%s)
-  BITCASK_REPO="$REPO" "$VERIF/check" "$prop" --evidence "$OUT/evidence/$id.json" --replays "$OUT/replays" > "$OUT/$id.log" 2>&1
-  rc=$?
-  t1=$(date +%s)
-  v=$(grep -m1 -E "^violation in run" "$OUT/$id.log" | sed 's/|/\\|/g' | cut -c1-200)
-  echo "| $id | $prop | $rc | $((t1-t0)) | $v |" >> "$res.tmp"
-  echo "$id $prop exit=$rc $((t1-t0))s"
+  checks=$(python3 -c "import json;m=json.load(open('$d/meta.json'));print(' '.join(m.get('sweep_checks',[m['breaks_property']])))")
+  git -C "$REPO" apply "$d/patch.diff" || { echo "| $id | $prop | patch does not apply | | | |" >> "$res.tmp"; continue; }
+  for c in $checks; do
+    t0=$(date +%s)
+    BITCASK_REPO="$REPO" "$VERIF/check" "$c" --evidence "$OUT/evidence/$id.$c.json" --replays "$OUT/replays" > "$OUT/$id.$c.log" 2>&1
+    rc=$?
+    t1=$(date +%s)
+    v=$(grep -m1 -E "^violation in run" "$OUT/$id.$c.log" | sed 's/|/\\|/g' | cut -c1-200)
+    echo "| $id | $prop | $c | $rc | $((t1-t0)) | $v |" >> "$res.tmp"
+    echo "$id $prop check=$c exit=$rc $((t1-t0))s"
+  done
   git -C "$REPO" checkout -- .
 done
 mv "$res.tmp" "$res"
